@@ -30,6 +30,22 @@ std::vector<T> run_find(const T a3, const T a2, const T a1, const T a0, const bo
                     : tfel::math::CubicRoots::find_roots(x1, x2, x3, a3, a2, a1, a0);
   return {T(static_cast<int>(nb)), x1, x2, x3};
 }
+// The function whose decision tree is regenerated.  If the tree has the rescaling wrapper (find_roots = exact power-of-two change
+// of unknown around find_roots_unscaled, see props/C10/fix_rescale.diff) the core is traced: frexp/ldexp have no symbolic meaning;
+// the wrapper is covered by the lemma C10Scale.v (roots of the rescaled cubic times s are the roots) and by the exact judge.
+template <typename T, typename C = tfel::math::CubicRoots>   // C: dependent name, so that the lookup may fail softly
+constexpr bool has_unscaled = requires(T& x, const T a) { C::find_roots_unscaled(x, x, x, a, a, a, a); };
+template <typename T, typename C = tfel::math::CubicRoots>
+std::vector<T> run_core(const T a3, const T a2, const T a1, const T a0) {
+  T x1(0), x2(0), x3(0);
+  unsigned short nb;
+  if constexpr (has_unscaled<T>) {
+    nb = C::find_roots_unscaled(x1, x2, x3, a3, a2, a1, a0);
+  } else {
+    nb = C::find_roots(x1, x2, x3, a3, a2, a1, a0);
+  }
+  return {T(static_cast<int>(nb)), x1, x2, x3};
+}
 template <typename T>
 std::vector<T> run_improve(const T vp0, const T a3, const T a2, const T a1, const T a0) {
   T vp = vp0;
@@ -43,8 +59,9 @@ int main(int argc, char** argv) {
     Rng rng(std::strtoull(argv[3], nullptr, 10));
     auto a = vars("a", 4);  // a0 a1 a2 a3
     std::vector<Sym> ps{a[3], a[2], a[1], a[0]};
-    auto leaves = tr.def_paths("find_roots_gen", ps, [&] { return run_find<Sym>(a[3], a[2], a[1], a[0]); });
+    auto leaves = tr.def_paths("find_roots_gen", ps, [&] { return run_core<Sym>(a[3], a[2], a[1], a[0]); });
     std::printf("LEAVES find_roots %zu\n", leaves.size());
+    std::printf("WRAPPER %d\n", int(has_unscaled<double>));
     // improve: the Newton loop (up to 50 iterations) is unrolled up to a bounded number of decisions; deeper paths are `None`
     Sym vp = var("vp");
     std::vector<Sym> ips{vp, a[3], a[2], a[1], a[0]};
